@@ -315,21 +315,33 @@ def tie_fsops(ctx: Ctx) -> None:
 
 def strace_inject(ctx: Ctx) -> None:
     """the rename system calls themselves fail or the process is killed at them"""
+    from concurrent.futures import ThreadPoolExecutor
+    jobs = []
     for name, files, flags, bad_idx in SCENARIOS:
         if not ("--inplace" in flags or "--auto" in flags or any(x.startswith("OUT/") for x in flags)):
             continue
-        before, after_ref, n, log, rc, _ = reference_run(files, flags, EXTRA_FILES.get(name))
+        extra = EXTRA_FILES.get(name)
+        before, after_ref, n, log, rc, _ = reference_run(files, flags, extra)
         renames = sum(1 for l in log if l.startswith("replace") or l.startswith("rename"))
         for k in range(1, renames + 1):
             for what in (f"rename:error=EIO:when={k}", f"rename:signal=KILL:when={k}", f"rename:error=ENOSPC:when={k}"):
-                rc2, text, state, sb = trace(files, flags, inject=what, extra=EXTRA_FILES.get(name))
-                ctx.count(["strace-inject", name, what], nontrivial=True)
-                ctx.bump("strace-inject")
-                msg = whole_state(name, files, flags, before, after_ref, state, bad_idx)
-                if msg:
-                    ctx.fail("WHOLE: after a fault injected into rename(2) a file is neither complete old nor complete new",
-                             {"scenario": name, "files": files, "flags": flags, "inject": what}, {"problem": msg, "rc": rc2})
-                    return
+                jobs.append((name, files, flags, bad_idx, extra, before, after_ref, what))
+
+    def one(job):
+        name, files, flags, bad_idx, extra, before, after_ref, what = job
+        rc2, text, state, sb = trace(files, flags, inject=what, extra=extra)
+        return job, rc2, state
+
+    with ThreadPoolExecutor(max_workers=8) as ex:
+        results = list(ex.map(one, jobs))
+    for (name, files, flags, bad_idx, extra, before, after_ref, what), rc2, state in results:
+        ctx.count(["strace-inject", name, what], nontrivial=True)
+        ctx.bump("strace-inject")
+        msg = whole_state(name, files, flags, before, after_ref, state, bad_idx)
+        if msg:
+            ctx.fail("WHOLE: after a fault injected into rename(2) a file is neither complete old nor complete new",
+                     {"scenario": name, "files": files, "flags": flags, "inject": what}, {"problem": msg, "rc": rc2})
+            return
 
 
 def replay_findings(ctx: Ctx) -> None:
